@@ -702,6 +702,15 @@ row('GRAPH.NODE*GETSTATE', ['C18'], touches=['graph', 'int'], clauses=graph_top_
     ('fired.graph.readonly', 'S1.graph.live() =~= S0.graph.live()')] + untouched_without_graph(['int']))
 row('GRAPH.NODE*HISTORY', ['C18'], touches=['graph', 'int'], clauses=buf_same('graph') + [kept('int', 2, 1),
     ('fired.graph.readonly', 'S1.graph.live() =~= S0.graph.live()')])
+# EDGE*HISTORY: position (top), destination (second), origin (third): the weight of the edge in the snapshot `pos` positions below the newest one
+_ep = 'top(S0.int, 0)'
+_esnap = 'S0.graph.live()[S0.graph.n() - 1 - %s]' % _ep
+row('GRAPH.EDGE*HISTORY', ['C18'], touches=['graph', 'int', 'float'], clauses=buf_same('graph') + [kept('int', 3, 0), kept('float', 0, 1),
+    ('fired.graph.readonly', 'S1.graph.live() =~= S0.graph.live()'),
+    ('fired.negative-position', '(S0.int.len() >= 1 && %s < 0) ==> (S1.int =~= S0.int.drop_last() && S1.float == S0.float)' % _ep),
+    ('fired.weight-of-the-snapshot', '(S0.int.len() >= 3 && 0 <= %s < S0.graph.n() && top(S0.int, 1) >= 0 && top(S0.int, 2) >= 0) ==> '
+     '(match %s.weight_of(top(S0.int, 2) as usize, top(S0.int, 1) as usize) { Some(w) => S1.float =~= S0.float.push(w), None => S1.float == S0.float })' % (_ep, _esnap)),
+    ('fired.no-such-snapshot', '(S0.int.len() >= 1 && %s >= S0.graph.n()) ==> S1.float == S0.float' % _ep)])
 row('GRAPH.PRINT', ['C18'], touches=['name'], clauses=[kept('name', 0, 1)] + untouched_without_graph(['name']))
 row('GRAPH.PRINT*DIFF', ['C18'], touches=['name'], clauses=[kept('name', 0, 1), ('{C18,C10}unfired.name', 'S0.graph.n() < 2 ==> S1.name == S0.name')])
 row('GRAPH.NODE*SETSTATE', ['C18'], touches=['graph', 'int'], clauses=graph_top_only() + [kept('int', 2, 0)] + untouched_without_graph(['int']))
